@@ -9,6 +9,7 @@ import (
 	"os"
 	"path/filepath"
 	"regexp"
+	"sort"
 
 	"github.com/reedom/convergen/pkg/builder"
 	"github.com/reedom/convergen/pkg/builder/model"
@@ -179,6 +180,11 @@ func (p *Parser) GenerateBaseCode() (code string, err error) {
 
 	// Remove doc comment of the interface.
 	// And also find the range pos of the interface in the code.
+	type markerPos struct {
+		marker string
+		pos    token.Pos
+	}
+	var markers []markerPos
 	for _, entry := range p.intfEntries {
 		nodes, _ := util.ToAstNode(p.file, entry.intf)
 		var minPos, maxPos token.Pos
@@ -205,9 +211,15 @@ func (p *Parser) GenerateBaseCode() (code string, err error) {
 			}
 		}
 
-		// Insert markers.
-		util.InsertComment(p.file, entry.marker, minPos)
-		util.InsertComment(p.file, entry.marker, maxPos)
+		markers = append(markers, markerPos{entry.marker, minPos}, markerPos{entry.marker, maxPos})
+	}
+
+	// Insert markers, the last position first: a marker occupies no room in the
+	// source, so it must never be taken for a comment that spans a later position
+	// (a closing brace or the next interface less than a marker's length away).
+	sort.SliceStable(markers, func(i, j int) bool { return markers[j].pos < markers[i].pos })
+	for _, m := range markers {
+		util.InsertComment(p.file, m.marker, m.pos)
 	}
 
 	var buf bytes.Buffer
